@@ -10,7 +10,7 @@
 (*                                           the current drawdown]          *)
 EXTENDS Drawdown, Json, TLC
 VARIABLES hist, done
-gvars == <<curve, gen, emitted, seen, last, hist, done>>
+gvars == <<curve, gen, emitted, seen, sess, last, hist, done>>
 
 DDJ(d)  == [value |-> RJ(d.value), start |-> d.start, end |-> d.end]
 OptJ(o) == IF o.has THEN DDJ(o.d) ELSE "none"
@@ -27,29 +27,38 @@ ExpJ(c) == [peak     |-> [v |-> Peak(c).v, t |-> Peak(c).t],
             fin_mean |-> MeanJ(ReportedFin(c))]
 \* read: the harness READS the current drawdown on the live generator after this point (ReadCurrent);
 \* by ReadingIsPure no later expectation depends on it
-StepJ(c, rd) == [t |-> c[Len(c)].t, v |-> c[Len(c)].v, read |-> rd, exp |-> ExpJ(c)]
+\* persist: the harness stores and restores the generators after this point (Persist, a stutter);
+\* reset: a Reset preceded this point - it is the first of a new session and exp is the decomposition
+\* of the points since then
+StepJ(c, rd, ps, fed) == [t |-> c[Len(c)].t, v |-> c[Len(c)].v, read |-> rd, persist |-> ps,
+                          reset |-> (Len(c) = 1 /\ fed > 1), exp |-> ExpJ(c)]
 
 GInit == Init /\ hist = <<>> /\ done = FALSE
 
-GStep == /\ ~done /\ Len(curve) < MaxLen
+GStep == /\ ~done /\ sess.fed < MaxLen
          /\ \E g \in Gaps, v \in AllValues : (Len(curve) = 0 => v > 0) /\ AddPoint(Now + g, v)
-         /\ hist' = Append(hist, StepJ(curve', FALSE))
+         /\ hist' = Append(hist, StepJ(curve', FALSE, FALSE, sess'.fed))
          /\ UNCHANGED done
 
-GStepR == /\ ~done /\ Len(curve) < MaxLen
+\* simulation: now and then a session ends (Reset) before the next point
+GResetR == /\ ~done /\ sess.fed < MaxLen /\ ResetAny
+           /\ RandomElement(1..3) = 1
+           /\ UNCHANGED <<hist, done>>
+
+GStepR == /\ ~done /\ sess.fed < MaxLen
           \* draws bound through singleton sets (notes/HOWTO.md "TLC pitfalls")
-          /\ \E g \in {RandomElement(Gaps)}, rd \in {RandomElement(BOOLEAN)},
+          /\ \E g \in {RandomElement(Gaps)}, rd \in {RandomElement(BOOLEAN)}, ps \in {RandomElement(BOOLEAN)},
                 v \in {RandomElement(IF Len(curve) = 0 THEN {x \in AllValues : x > 0} ELSE AllValues)} :
                 /\ AddPoint(Now + g, v)
-                /\ hist' = Append(hist, StepJ(curve', rd))
+                /\ hist' = Append(hist, StepJ(curve', rd, ps, sess'.fed))
           /\ UNCHANGED done
 
-GFinish == /\ ~done /\ Len(curve) = MaxLen
+GFinish == /\ ~done /\ sess.fed = MaxLen
            /\ done' = TRUE
-           /\ UNCHANGED <<curve, gen, emitted, seen, last, hist>>
+           /\ UNCHANGED <<curve, gen, emitted, seen, sess, last, hist>>
 
 GSpec  == GInit /\ [][GStep \/ GFinish]_gvars
-GSpecR == GInit /\ [][GStepR \/ GFinish]_gvars
+GSpecR == GInit /\ [][GStepR \/ GResetR \/ GFinish]_gvars
 
 Emit == done => PrintT(<<"SCN", ToJson([pts |-> hist])>>)
 =============================================================================
